@@ -108,6 +108,10 @@ private:
 
   RLBOX_SHARED_LOCK(func_ptr_cache_lock);
   std::map<std::string, void*> func_ptr_map;
+  // Backends that define needs_internal_lookup_symbol may answer
+  // impl_internal_lookup_symbol differently from impl_lookup_symbol, so the
+  // two kinds of lookups must not share cache entries
+  std::map<std::string, void*> internal_func_ptr_map;
 
   app_pointer_map<typename T_Sbx::T_PointerType> app_ptr_map;
 
@@ -454,6 +458,7 @@ public:
     {
       RLBOX_ACQUIRE_UNIQUE_GUARD(lock, func_ptr_cache_lock);
       func_ptr_map.clear();
+      internal_func_ptr_map.clear();
     }
     {
       std::lock_guard<std::mutex> lock(callback_lock);
@@ -731,8 +736,8 @@ public:
     {
       RLBOX_ACQUIRE_SHARED_GUARD(lock, func_ptr_cache_lock);
 
-      auto func_ptr_ref = func_ptr_map.find(func_name);
-      if (func_ptr_ref != func_ptr_map.end()) {
+      auto func_ptr_ref = internal_func_ptr_map.find(func_name);
+      if (func_ptr_ref != internal_func_ptr_map.end()) {
         return func_ptr_ref->second;
       }
     }
@@ -745,7 +750,7 @@ public:
       func_ptr = this->impl_lookup_symbol(func_name);
     }
     RLBOX_ACQUIRE_UNIQUE_GUARD(lock, func_ptr_cache_lock);
-    func_ptr_map[func_name] = func_ptr;
+    internal_func_ptr_map[func_name] = func_ptr;
     return func_ptr;
   }
 
